@@ -1,0 +1,10 @@
+//go:build verif
+
+// Machine-checked contracts for this package (comment-only; compiled only under the
+// build tag `verif`, where it still contains no code). Checked by /verif/govc.
+package keeper
+
+// Scans the registered entries for a denom: a read.
+//@ func (Keeper).GetEntryByDenom
+//@ modifies nothing
+//@ frame-only
